@@ -104,7 +104,9 @@ inductive ConnTy where
 /-- `HeaderValue::to_str`: visible ASCII + tab -/
 def toStrOk (v : Bytes) : Bool := v.all fun b => b = 9 || (32 ≤ b.toNat && b.toNat ≤ 126)
 
-def eqIgnoreCase (v : Bytes) (s : String) : Bool := lowerBytes v == bytesOfString s
+/-- `eq_ignore_ascii_case` against a lower-case constant (byte literals, so that the kernel can
+evaluate the model) -/
+def eqIgnoreCase (v : Bytes) (s : Bytes) : Bool := lowerBytes v == s
 
 structure HdrAcc where
   ka : Option ConnTy := none
@@ -114,10 +116,26 @@ structure HdrAcc where
   cl : Option Nat := none
   deriving Repr
 
-def nameCL : Bytes := bytesOfString "content-length"
-def nameTE : Bytes := bytesOfString "transfer-encoding"
-def nameConn : Bytes := bytesOfString "connection"
-def nameUpg : Bytes := bytesOfString "upgrade"
+/-- `content-length` -/
+def nameCL : Bytes := [99, 111, 110, 116, 101, 110, 116, 45, 108, 101, 110, 103, 116, 104]
+/-- `transfer-encoding` -/
+def nameTE : Bytes := [116, 114, 97, 110, 115, 102, 101, 114, 45, 101, 110, 99, 111, 100, 105, 110, 103]
+/-- `connection` -/
+def nameConn : Bytes := [99, 111, 110, 110, 101, 99, 116, 105, 111, 110]
+/-- `upgrade` -/
+def nameUpg : Bytes := [117, 112, 103, 114, 97, 100, 101]
+/-- `chunked` -/
+def sChunked : Bytes := [99, 104, 117, 110, 107, 101, 100]
+/-- `identity` -/
+def sIdentity : Bytes := [105, 100, 101, 110, 116, 105, 116, 121]
+/-- `keep-alive` -/
+def sKeepAlive : Bytes := [107, 101, 101, 112, 45, 97, 108, 105, 118, 101]
+/-- `close` -/
+def sClose : Bytes := [99, 108, 111, 115, 101]
+/-- `upgrade` -/
+def sUpgrade : Bytes := [117, 112, 103, 114, 97, 100, 101]
+/-- `websocket` -/
+def sWebsocket : Bytes := [119, 101, 98, 115, 111, 99, 107, 101, 116]
 
 /-- one iteration of the header loop of `set_headers`; `none` = `Err(ParseError::Header)` -/
 def hdrStep (v11 : Bool) (a : HdrAcc) (h : Bytes × Bytes) : Option HdrAcc :=
@@ -138,8 +156,8 @@ def hdrStep (v11 : Bool) (a : HdrAcc) (h : Bytes × Bytes) : Option HdrAcc :=
       if !toStrOk value then none
       else
         let v := trimOws value
-        if eqIgnoreCase v "chunked" then some { a with seenTe := true, chunked := true }
-        else if eqIgnoreCase v "identity" then some { a with seenTe := true }
+        if eqIgnoreCase v sChunked then some { a with seenTe := true, chunked := true }
+        else if eqIgnoreCase v sIdentity then some { a with seenTe := true }
         else none
     else some a
   else if name = nameConn then
@@ -147,13 +165,13 @@ def hdrStep (v11 : Bool) (a : HdrAcc) (h : Bytes × Bytes) : Option HdrAcc :=
       if !toStrOk value then none
       else
         let v := trimOws value
-        if eqIgnoreCase v "keep-alive" then some ConnTy.keepAlive
-        else if eqIgnoreCase v "close" then some ConnTy.close
-        else if eqIgnoreCase v "upgrade" then some ConnTy.upgrade
+        if eqIgnoreCase v sKeepAlive then some ConnTy.keepAlive
+        else if eqIgnoreCase v sClose then some ConnTy.close
+        else if eqIgnoreCase v sUpgrade then some ConnTy.upgrade
         else none
     some { a with ka := ka }
   else if name = nameUpg then
-    if toStrOk value && eqIgnoreCase (trimOws value) "websocket" then some { a with upgradeWs := true }
+    if toStrOk value && eqIgnoreCase (trimOws value) sWebsocket then some { a with upgradeWs := true }
     else some a
   else some a
 
@@ -250,12 +268,19 @@ inductive Outcome where
   | bodyErr (status : Nat) (e : BodyErr)
   | dropped (status : Nat)
   | sendErr (e : SendErr)
-  deriving Repr
+  deriving Repr, DecidableEq
 
 inductive Mode where
   | full
   | part (k : Nat)
   deriving Repr
+
+/-- the caller reads until it has seen `n` body bytes, then stops polling and drops the
+response (`.full`: reads to the end) -/
+def earlyDrop (mode : Mode) (delivered : Nat) : Bool :=
+  match mode with
+  | .full => false
+  | .part n => decide (n ≤ delivered)
 
 structure Exchange where
   outcome : Outcome
@@ -314,10 +339,7 @@ def exchange (o : ReqOpts) (mode : Mode) (segs : List Bytes) (closed : Bool) : E
           released := ka, reachedEnd := true, keepAlive := ka, discarded := bufRest, unread := rest }
       | some k =>
         let r := runBody k bufRest rest closed
-        let early := match mode with
-          | .full => false
-          | .part n => n ≤ r.delivered.length
-        if early then
+        if earlyDrop mode r.delivered.length then
           -- the caller stops polling and drops the response: the io is dropped with it
           { outcome := .dropped h.status, released := false, reachedEnd := false, keepAlive := ka,
             discarded := r.discarded, unread := r.unread }
